@@ -78,17 +78,20 @@ def main(argv):
             hyp = co.model(i, T, [{"k": "len", "v": {}}])
             rtwf = bool(isinstance(hyp, list) and hyp[0].get("rtwf"))
             nomod = bool(isinstance(hyp, list) and hyp[0].get("nomod"))
-            run.hist("theorem_hypotheses", "rtWfBody:%s noModBody:%s" % (rtwf, nomod))
+            derived = bool(isinstance(hyp, list) and hyp[0].get("derived"))
+            run.hist("theorem_hypotheses", "rtWfFull:%s noModBody:%s %s" % (rtwf, nomod, "inheriting" if derived else "root"))
             if rtwf:
                 idl = co.mdl.ask({"op": "wire", "type": T, "mode": "ideal", "cases": [{"k": "enc", "v": v} for v, _ in vals]}, timeout=300)
                 can = co.model(i, T, [{"k": "canon", "v": v} for v, _ in vals])
                 if idl and idl.get("status") == "ok" and isinstance(can, list):
                     for (v, _), mi, mc, md in zip(vals, idl["out"], can, decs):
-                        if mi.get("r") != "ok":
+                        if mi.get("r") != "ok" or not mc.get("nocons", True):
                             continue
                         run.count("theorem_instances")
+                        if derived:
+                            run.count("theorem_instances_inheriting")
                         if not (md.get("r") == "ok" and W.canon(md.get("value")) == W.canon(mc.get("value"))) and nomod:
-                            run.violation("corr", "theorem roundtrip_rust contradicted by evaluation on %s (model bug)" % T,
+                            run.violation("corr", "theorem roundtrip_any / roundtrip_rust contradicted by evaluation on %s (model bug)" % T,
                                           {"pdl": d["text"], "type": T, "value": v, "corr": "thm:roundtrip_rust"}, found_input=False)
                         if W.canon(mc.get("value")) != W.canon(v):
                             run.hist("canon", "value-not-in-normal-form")
